@@ -217,13 +217,15 @@ def extra_checks(tier, seed):
     viol = []
     n_eval = 0
 
-    def check_one(pred):
+    def check_one(pred, built=None, shown=None):
+        """`built`: a predicate object assembled in another way (e.g. with `+`) that must mean `pred`"""
         nonlocal n_eval
+        shown_ = shown or show(pred)
         try:
-            checker = create_loc_stack_checker(build(pred, api))
+            checker = create_loc_stack_checker(build(pred, api) if built is None else built())
         except Exception as e:  # noqa: BLE001
-            viol.append({"unit": "create_loc_stack_checker", "clause": "creation", "witness": show(pred)[:160],
-                         "w": {"native_outcome": f"{type(e).__name__}: {e}"[:300], "input": show(pred)[:200]}})
+            viol.append({"unit": "create_loc_stack_checker", "clause": "creation", "witness": shown_[:160],
+                         "w": {"native_outcome": f"{type(e).__name__}: {e}"[:300], "input": shown_[:200]}})
             return
         bad = 0
         for st in stacks:
@@ -237,13 +239,32 @@ def extra_checks(tier, seed):
                 bad += 1
                 if bad <= 2:
                     viol.append({"unit": "create_loc_stack_checker", "clause": "matches-as-documented",
-                                 "witness": f"{show(pred)} on {_show_stack(st)}"[:200],
+                                 "witness": f"{shown_} on {_show_stack(st)}"[:200],
                                  "w": {"native_outcome": f"checker says {got!r}, the documented rules say {want!r}",
-                                       "input": f"{show(pred)} | {_show_stack(st)}"[:300]}})
+                                       "input": f"{shown_} | {_show_stack(st)}"[:300]}})
     for pred in preds:
         check_one(pred)
         if len(viol) > 40:
             break
+    # `+` concatenates chains of ANY length, in every bracketing: p + q means the elements of p followed by the elements of q
+    parts = [[t] for t in some_t[:3]] + [[f] for f in some_f[:2]] + [[t, f] for t, f in itertools.product(some_t[:2], some_f[:2])] + \
+        [[f, t] for t, f in itertools.product(some_t[1:3], some_f[:2])] + [[some_t[0], some_f[0], some_t[1]], [("any",), some_f[1]]]
+    n_plus = 0
+    for c1, c2 in itertools.product(parts, repeat=2):
+        if len(viol) > 40:
+            break
+        n_plus += 1
+        check_one(("chain", c1 + c2), built=lambda c1=c1, c2=c2: build(("chain", c1), api) + build(("chain", c2), api),
+                  shown=f"{show(('chain', c1))} + {show(('chain', c2))}")
+    for c1, c2, c3 in itertools.product(parts[:5] + parts[9:11], repeat=3):
+        if len(viol) > 40:
+            break
+        n_plus += 2
+        b = lambda c: build(("chain", c), api)  # noqa: E731
+        check_one(("chain", c1 + c2 + c3), built=lambda c1=c1, c2=c2, c3=c3: b(c1) + (b(c2) + b(c3)),
+                  shown=f"{show(('chain', c1))} + ({show(('chain', c2))} + {show(('chain', c3))})")
+        check_one(("chain", c1 + c2 + c3), built=lambda c1=c1, c2=c2, c3=c3: (b(c1) + b(c2)) + b(c3),
+                  shown=f"({show(('chain', c1))} + {show(('chain', c2))}) + {show(('chain', c3))}")
 
     # documented identities, as semantic equality over all stacks
     n_ident = 0
@@ -271,7 +292,8 @@ def extra_checks(tier, seed):
     return [{
         "obligations": 0, "discharged": 0, "violations": viol,
         "bounded": [{"unit": "create_loc_stack_checker / P builder over live typing objects",
-                     "bound": f"{len(preds)} predicate expressions (nesting <= 2, chains <= 3) x {len(stacks)} location stacks "
+                     "bound": f"{len(preds)} predicate expressions (nesting <= 2, chains <= 3) + {n_plus} `+` concatenations (2 and 3 operands, "
+                              f"operands of 1-3 elements, both bracketings) x {len(stacks)} location stacks "
                               f"(depth <= {max_depth}, {len(locs)} locations): {n_eval} evaluations; {n_ident} identity evaluations"}],
         "samples": [{"predicates": len(preds), "stacks": len(stacks), "evaluations": n_eval, "identity_evaluations": n_ident,
                      "failed": len(viol), "seconds": round(time.time() - t0, 1)}],
